@@ -21,6 +21,7 @@
 EXTENDS Naturals, Integers, Sequences, FiniteSets, TLC, Json
 
 CONSTANTS N,        \* number of raw slices
+          Lens,     \* possible lengths of a raw slice
           Fixed, Emit
 Idx == 1..N
 
@@ -47,9 +48,9 @@ SortedSeq(S) == IF S = {} THEN <<>> ELSE LET m == CHOOSE m \in S : \A y \in S : 
 InitStack == [j \in 1..Cardinality(Modified) |->
                 LET i == SortedSeq(Modified)[j] IN <<OrigStart(i), delta[i]>>]
 
-Init == /\ len \in [Idx -> 2..3]
+Init == /\ len \in [Idx -> Lens]
         /\ delta \in [Idx -> {-1, 0, 1}]
-        /\ Cardinality({i \in Idx : delta[i] # 0}) \in 1..2
+        /\ Cardinality({i \in Idx : delta[i] # 0}) \in 1..3
         /\ la \in Idx /\ lb \in Idx /\ la <= lb
         /\ reps \in 1..2
         /\ pc = 1 /\ carried = 0 /\ out = <<>>
